@@ -47,6 +47,8 @@ type Behaviour struct {
 	Level   int32 `json:"level,omitempty"`
 	// Stream is the list of replies of a server-stream handler.
 	Stream []StreamItem `json:"stream,omitempty"`
+	// StampErr appends " tok=<token> srv=<server>" to the error message.
+	StampErr bool `json:"stamp_err,omitempty"`
 	// StreamEndless makes a server-stream handler keep sending replies (after
 	// the scripted ones) until sending fails or the case is torn down.
 	StreamEndless bool `json:"stream_endless,omitempty"`
@@ -371,12 +373,17 @@ func (s *impl) nextSerial() uint64 {
 	return s.c.serial[s.i]
 }
 
-func (s *impl) errOf(b Behaviour) error {
+func (s *impl) errOf(b Behaviour, token uint64) error {
+	msg := b.ErrMsg
+	if b.StampErr {
+		// the error names the request it answers and the server that produced it (error provenance)
+		msg = fmt.Sprintf("%s tok=%d srv=%d", b.ErrMsg, token, s.i)
+	}
 	if b.PlainErr {
-		return errors.New(b.ErrMsg)
+		return errors.New(msg)
 	}
 	if b.ErrCode > 0 {
-		return status.Error(codes.Code(b.ErrCode), b.ErrMsg)
+		return status.Error(codes.Code(b.ErrCode), msg)
 	}
 	return nil
 }
@@ -386,7 +393,7 @@ func (s *impl) twoWay(ctx gorums.ServerCtx, method string, req *puppet.Req) (*pu
 	defer close(hr.exited)
 	b := hr.b
 	s.wait(gkey{s.i, req.GetToken(), -1}, b.Gate, b.SleepUs)
-	err := s.errOf(b)
+	err := s.errOf(b, req.GetToken())
 	var rep *puppet.Rep
 	ev := Event{Kind: "exit", Server: s.i, Conn: s.c.connID(ctx.Context), Call: s.c.callIdx(req.GetToken()), Method: method,
 		Token: req.GetToken(), Seq: req.GetSeq()}
@@ -464,7 +471,7 @@ func (s *impl) stream(ctx gorums.ServerCtx, method string, req *puppet.Req, send
 	if b.EndGate {
 		s.wait(gkey{s.i, req.GetToken(), len(items)}, true, 0)
 	}
-	err := s.errOf(b)
+	err := s.errOf(b, req.GetToken())
 	ev := Event{Kind: "exit", Server: s.i, Conn: conn, Call: call, Method: method, Token: req.GetToken(), Seq: req.GetSeq()}
 	if err != nil {
 		ev.ErrCode, ev.ErrMsg = int(status.Code(err)), b.ErrMsg
